@@ -28,6 +28,7 @@ EXPLANATION = (
     "cc.t2[k]). "
     " PURE-1: no function of the interface modules stores into a module-level container, so nothing computed for one prep_afqmc call (possibly transformed in place by it) can leak into the next call in the same process. The FCIDUMP_chol reader side is decided on the value graph of _prep_afqmc with its private helpers evaluated in place (header positions by use: electron split, reshape dimensions), so that moving the file reading into a helper or packing the values into a NamedTuple changes nothing. "
     " SYM-1: the array stored under 'ci2bb' is the one stored under 'ci2aa' with t1[0] -> t1[1] and t2[0] -> t2[2] (value numbering under that substitution). The options defaults, the files opened and the npz keys read are collected over _prep_afqmc together with the module-level helpers it calls. "
+    " MUT-1: prep_afqmc / write_dqmc / generate_integrals apply no in-place operator to a parameter, an attribute of one, or a NumPy view of one (np.asarray / reshape / ravel do not copy): the mean-field / coupled-cluster object stays the user's. KEYS-2 (source): the one-body integrals written are the mean-field object's own get_hcore(), not rebuilt from the molecule (a customised mf.get_hcore would be ignored). "
 )
 NOT_DECIDED = (
     "everything numerical: HF / FCI / CC energies, the frozen-core effective Hamiltonian, amplitude "
